@@ -11,16 +11,21 @@ namespace Topo
 structure TNode where
   name : String
   deps : List String
+  /-- an `Include` node: it stands in the list that is sorted, but it is no definition
+      (`dependencies()` of an Include is empty; it is not `available`, is skipped by
+      `find_first_dep` and is never added to `known`) -/
+  incl : Bool := false
   deriving DecidableEq, Repr, Inhabited
 
 /-- `known = set(BUILTIN_SIZES)` (model.py; until the repair of D78 the set also held `r8` and `r16`, which are not types) -/
 def builtins : List String :=
   ["i8", "i16", "i32", "i64", "u8", "u16", "u32", "u64", "r32", "r64", "byte"]
 
-/-- `find_first_dep(dependency, start_index)` relative to a suffix: index of the first node named `dep` -/
+/-- `find_first_dep(dependency, start_index)` relative to a suffix: index of the first node named `dep`
+    that is not an Include (`n.name == dependency and not isinstance(n, Include)`) -/
 def findIdx (dep : String) : List TNode → Option Nat
   | [] => none
-  | n :: r => if n.name = dep then some 0 else (findIdx dep r).map (· + 1)
+  | n :: r => if n.name = dep ∧ n.incl = false then some 0 else (findIdx dep r).map (· + 1)
 
 /-- `x :: l` with the element at `k` removed from `l` (the node that is moved to the front) -/
 def moveFront : List TNode → Nat → List TNode
@@ -66,10 +71,16 @@ def sortFrom (total : Nat) (available : List String) : Nat → List TNode → Li
     match settle known available (total + 1) suffix with
     | none => none
     | some [] => some []
-    | some (m :: r) => (sortFrom total available k r (m.name :: known)).map (m :: ·)
+    | some (m :: r) =>
+      -- `if not isinstance(node, Include): known.add(node.name)`
+      (sortFrom total available k r (if m.incl then known else m.name :: known)).map (m :: ·)
+
+/-- `available = set(node.name for node in nodes if not isinstance(node, Include))` -/
+def availableOf (nodes : List TNode) : List String :=
+  (nodes.filter (fun n => !n.incl)).map (·.name)
 
 def sort (nodes : List TNode) : Option (List TNode) :=
-  sortFrom nodes.length (nodes.map (·.name)) nodes.length nodes builtins
+  sortFrom nodes.length (availableOf nodes) nodes.length nodes builtins
 
 /-! ### `dependencies()` of the model nodes (prophyc/model.py) -/
 
@@ -80,6 +91,7 @@ inductive Decl
   | typedef (name type : String)
   | struct (name : String) (members : List (String × Option String))   -- (type_name, size text)
   | union (name : String) (arms : List (String × String))              -- (type_name, discriminator text)
+  | incl (name : String)                                               -- an included file (model.Include)
   deriving Repr, Inhabited
 
 def Decl.name : Decl → String
@@ -88,6 +100,7 @@ def Decl.name : Decl → String
   | .typedef n _ => n
   | .struct n _ => n
   | .union n _ => n
+  | .incl n => n
 
 def isWordChar (c : Char) : Bool := c.isAlphanum || c == '_'
 
@@ -111,6 +124,7 @@ def Decl.rawDeps : Decl → List String
   | .typedef _ t => [t]
   | .struct _ ms => ms.flatMap fun m => m.1 :: (match m.2 with | some sz => idents sz | none => [])
   | .union _ arms => arms.flatMap fun a => a.1 :: idents a.2
+  | .incl _ => []
 
 /-- enumerator name -> enum name (later definitions win, as in `dict(...)`) -/
 def enumeratorOwner (ds : List Decl) (sym : String) : String :=
@@ -130,11 +144,11 @@ def toNodes (ds : List Decl) : List TNode :=
     let deps := match d with
       | .enum n _ => mapped.filter (· != n)
       | _ => mapped
-    ⟨d.name, deps⟩
+    ⟨d.name, deps, match d with | .incl _ => true | _ => false⟩
 
-/-- order of definition names prophyc emits, or `none` for a reported cycle -/
+/-- order of definition names prophyc emits (Include nodes left out), or `none` for a reported cycle -/
 def sortDecls (ds : List Decl) : Option (List String) :=
-  (sort (toNodes ds)).map (·.map (·.name))
+  (sort (toNodes ds)).map fun r => (r.filter (fun n => !n.incl)).map (·.name)
 
 end Topo
 end Prophy
